@@ -1638,7 +1638,7 @@ package rapid
 //@ ghost storedThisStep Bool
 
 //@ func genAnyMap$1
-//@   captures [C04,C15] keyGen, valGen, typ
+//@   captures [C03,C04,C15] keyGen, valGen, typ
 //@   noframe "builds a map through reflection"
 //@   nosafety "reflection calls are abstracted"
 //@   ensures [C04] true
@@ -1647,6 +1647,7 @@ package rapid
 //@   at repeat.more#0 set rejectedAttempt = false
 //@   at repeat.reject#0 set rejectedAttempt = true
 //@   at m.SetMapIndex#0 assert [C01,C04] !rejectedAttempt
+//@   at reflect.MakeMapWithSize#0 assert [C03] arg0 == typ
 //   ... in either order: a step that stores into the map is not rejected afterwards
 //@   at repeat.more#0 set storedThisStep = false
 //@   at m.SetMapIndex#0 set storedThisStep = true
@@ -1667,16 +1668,25 @@ package rapid
 // be shared between concurrently running checks (C15); the fuzz target may capture only the property (C13).
 
 //@ func genAnyPointer$1
-//@   captures [C15] elemGen, elem, typ
+//@   captures [C03,C15] elemGen, elem, typ
 //@   trusted "reflection: only the closure frame is checked"
 //@ func genAnyArray$1
-//@   captures [C15] typ, count, elemGen
+//@   captures [C03,C15] typ, count, elemGen
 //@   trusted "reflection: only the closure frame is checked"
+//   The composite value is made of the very type Make was asked for (C03: the requested dynamic type - a slice made
+//   of reflect.SliceOf(elem) has lost the name of a named slice type, and makeGen's conversion to V panics on it for
+//   every bit stream). A pin: the reflect calls themselves are abstracted; what is checked is which type enters.
 //@ func genAnySlice$1
-//@   captures [C15] elemGen, typ
-//@   trusted "reflection: only the closure frame is checked"
+//@   captures [C03,C15] elemGen, typ
+//@   noframe "builds a slice through reflection"
+//@   nosafety "reflection calls are abstracted"
+//@   at reflect.MakeSlice#0 assert [C03] arg0 == typ
+//@   ensures [C03] true
+//@   panics any: true
+//@   modifies heap, drawn, lastWord, stream(t.s), onceDone, onceIn, discards
+//@   loop 0 invariant [C03] repeatInv(repeat) && groupUsed(repeat)
 //@ func genAnyStruct$1
-//@   captures [C15] typ, numFields, fieldGens
+//@   captures [C03,C15] typ, numFields, fieldGens
 //@   noframe "builds a struct through reflection"
 //@   nosafety "reflection calls are abstracted; numFields == len(fieldGens) by construction in genAnyStruct"
 //   Every attempt of a Custom function must consume at least one (possibly zero-width) draw: find closes the attempt's
